@@ -10,7 +10,7 @@ use serde_json::{json, Value};
 pub struct P;
 pub static C18: P = P;
 
-pub const WAYS: [&str; 8] = [
+pub const WAYS: [&str; 11] = [
     "class + user sheet .h{display:none}",
     "style=\"display:none\" (document CSS enabled)",
     "style=\"height:0;overflow:hidden\"",
@@ -19,6 +19,9 @@ pub const WAYS: [&str; 8] = [
     "class + descendant selector body .h",
     "class + agent sheet",
     "style=\"max-height:0px; overflow-y:hidden\"",
+    "NOT hidden: class + sheet .h .h{display:none} (no ancestor has the class)",
+    "NOT hidden: class + sheet .h > .h{display:none}",
+    "NOT hidden: class + sheet .h:nth-child(99){display:none}",
 ];
 
 #[derive(Serialize, Deserialize)]
@@ -35,7 +38,7 @@ fn mark(d: &[N], p: &[usize], way: usize) -> String {
     let mut dm = d.to_vec();
     if let N::E(_, attrs, _) = node_at_mut(&mut dm, p) {
         match way {
-            0 | 4 | 5 | 6 => attrs.push(("class".into(), "h".into())),
+            0 | 4 | 5 | 6 | 8 | 9 | 10 => attrs.push(("class".into(), "h".into())),
             1 => attrs.push(("style".into(), "display:none".into())),
             2 => attrs.push(("style".into(), "height:0;overflow:hidden".into())),
             3 => attrs.push(("id".into(), "hh".into())),
@@ -50,6 +53,10 @@ fn mark(d: &[N], p: &[usize], way: usize) -> String {
     }
 }
 fn delete(d: &[N], p: &[usize], way: usize) -> String {
+    if way >= 8 {
+        // the selector matches nothing: the expectation is the document itself
+        return mark(d, p, way);
+    }
     let mut dd = d.to_vec();
     // the subtree is replaced by an empty comment, so the text nodes on either side stay
     // separate nodes exactly as when the element is merely hidden
@@ -69,12 +76,31 @@ fn cfg_for(way: usize, rich: bool) -> Cfg {
         3 => base.with(Opt::UserCss("#hh{display:none;}".into())),
         5 => base.with(Opt::UserCss("body .h { display: none }".into())),
         6 => base.with(Opt::AgentCss(".h{display:none}".into())),
+        8 => base.with(Opt::UserCss(".h .h{display:none}".into())),
+        9 => base.with(Opt::UserCss(".h > .h { display: none }".into())),
+        10 => base.with(Opt::UserCss(".h:nth-child(99){display:none}".into())),
         _ => base,
     }
 }
 
 fn check(c: &Case, tag: &str, cx: &mut Cx) {
     let cfg = cfg_for(c.way, c.rich);
+    if c.way >= 8 {
+        // a sheet whose selector matches no element must change nothing
+        let plain_cfg = if c.rich { Cfg::rich() } else { Cfg::plain() }.with(Opt::DocCss);
+        let a = cx.render(c.marked.as_bytes(), c.width, &cfg);
+        let b = cx.render(c.marked.as_bytes(), c.width, &plain_cfg);
+        cx.state(2);
+        if a.is_ok() {
+            cx.set_case_hash(crate::util::h64_parts(&[c.marked.as_bytes(), &c.width.to_le_bytes(), &[c.way as u8, c.rich as u8]]));
+            cx.nontrivial();
+        }
+        if a != b {
+            let class = format!("<{tag}> hidden although no rule matches it: {}", WAYS[c.way]);
+            cx.violation(&class, || json!({"case": serde_json::to_value(c).unwrap(), "cfg": cfg.as_rust(), "with_sheet": format!("{a:?}"), "without_sheet": format!("{b:?}")}));
+        }
+        return;
+    }
     let (a, b) = if c.rich {
         (cx.render_lines(c.marked.as_bytes(), c.width, &cfg).map(|l| format!("{l:?}")), cx.render_lines(c.deleted.as_bytes(), c.width, &cfg).map(|l| format!("{l:?}")))
     } else {
@@ -151,7 +177,7 @@ impl Prop for P {
     fn build(&self, tier: Tier) -> Box<dyn Scope> {
         let docs = block_docs(tier.pick(2, 3), G { tables: true, pre: true, valid_only: true });
         let docs: Vec<Vec<N>> = if tier == Tier::Thorough { docs.into_iter().step_by(2).collect() } else { docs };
-        Box::new(S { docs, widths: tier.pick(vec![1, 2, 3, 4, 5, 6, 8, 10, 14, 20], (1..=24).chain([30, 40, 60, 100]).collect()), ways: tier.pick(vec![0, 1, 2, 3, 4], vec![0, 1, 2, 3, 4, 5, 6, 7]) })
+        Box::new(S { docs, widths: tier.pick(vec![1, 2, 3, 4, 5, 6, 8, 10, 14, 20], (1..=24).chain([30, 40, 60, 100]).collect()), ways: tier.pick(vec![0, 1, 2, 3, 4, 8, 9], vec![0, 1, 2, 3, 4, 5, 6, 7, 8, 9, 10]) })
     }
     fn replay(&self, case: &Value, cx: &mut Cx) {
         let c: Case = serde_json::from_value(case.clone()).expect("C18 case");
